@@ -26,6 +26,7 @@ func init() {
 	register(&Family{Name: "c06conc", Gen: genC06Conc, Run: runC06Conc})
 	register(&Family{Name: "c07", Gen: func(seed uint64, tier string) *world.Scenario { return genCurves("c07", seed, true) }, Run: runC07})
 	register(&Family{Name: "c07loop", Gen: genC07Loop, Run: runC07Loop})
+	register(&Family{Name: "c07conc", Gen: func(seed uint64, tier string) *world.Scenario { return genSharedGraph("c07conc", seed, true) }, Run: runC07Conc})
 	register(&Family{Name: "c07twin", Gen: genC07Twin, Run: runC07Twin})
 }
 
@@ -130,6 +131,15 @@ func genCurves(fam string, seed uint64, monotone bool) *world.Scenario {
 		ids = append(ids, c.ID)
 	}
 	sc.Params["evals"] = float64(r.Range(20, 60))
+	if or := kernel.NewRand(seed, "c06.fileorder"); or.Bool(0.5) {
+		// the order of the entries in the file is the user's: a function curve may well be written above its
+		// members (references are by id; the validator checks them over the whole list)
+		for i := len(sc.Curves) - 1; i > 0; i-- {
+			j := or.Intn(i + 1)
+			sc.Curves[i], sc.Curves[j] = sc.Curves[j], sc.Curves[i]
+		}
+		sc.Variant += "|curves-in-any-file-order"
+	}
 	return sc
 }
 
@@ -376,9 +386,13 @@ func runC06(t *testing.T, sc *world.Scenario) *check.Result {
 // evaluations: every result must equal the sequential one.
 
 func genC06Conc(seed uint64, tier string) *world.Scenario {
+	return genSharedGraph("c06conc", seed, false)
+}
+
+func genSharedGraph(fam string, seed uint64, monotone bool) *world.Scenario {
 	var sc *world.Scenario
 	for k := uint64(0); ; k++ {
-		sc = genCurves("c06conc", seed+k*1000003, false)
+		sc = genCurves(fam, seed+k*1000003, monotone)
 		// constant leaves only, and at least one function curve over >= 2 members
 		ok := false
 		var keep []world.CurveSpec
@@ -416,7 +430,7 @@ func genC06Conc(seed uint64, tier string) *world.Scenario {
 		}
 	}
 	sc.Seed = seed
-	r := kernel.NewRand(seed, "c06conc")
+	r := kernel.NewRand(seed, fam)
 	sc.Params["tasks"] = float64(r.Range(2, 4))
 	sc.Params["evals"] = float64(r.Range(8, 30))
 	return sc
@@ -537,6 +551,124 @@ func runC06Conc(t *testing.T, sc *world.Scenario) *check.Result {
 						st.K.StepWith(fmt.Sprintf("fan%d.evaluated", k), rec)
 					}
 					if left.Add(-1) == 0 {
+						st.K.Stop()
+					}
+				})
+			}
+		}
+		return []Oracle{o}
+	})
+}
+
+// ---------------------------------------------------------------------------
+// c07conc: one curve graph (monotone curve types only) shared by several fans whose evaluations interleave at
+// the member boundaries, while the temperatures only ever rise. Every read of a later evaluation happens
+// after every read of an earlier evaluation of the same fan, so the later value is never lower.
+
+type riseRecord struct {
+	Task  int    `json:"task"`
+	Root  string `json:"root"`
+	Value int    `json:"value"`
+	Prev  int    `json:"prev"`
+	Err   string `json:"err,omitempty"`
+}
+
+type c07ConcOracle struct {
+	res  *check.Result
+	spec map[string]*world.CurveSpec
+	seen map[string]bool
+}
+
+func (o *c07ConcOracle) OnEvent(ev *kernel.Event) {
+	rec, ok := ev.Sample.(*riseRecord)
+	if ev.Kind != "task" || !ok {
+		return
+	}
+	o.res.Probe("concurrent-evaluations-under-rising-temperatures")
+	kind := "?"
+	if c := o.spec[rec.Root]; c != nil {
+		kind = c.Func
+	}
+	if rec.Err == "" && rec.Prev >= 0 && rec.Value > rec.Prev {
+		o.res.Probe("values-rising")
+	}
+	if rec.Err == "" && rec.Prev >= 0 && rec.Value < rec.Prev && !o.seen[kind] {
+		o.seen[kind] = true
+		o.res.Violate("C07", "curve-monotone-shared", "curve-monotone-shared func="+kind, ev.Seq, ev.T,
+			"fan %d: function curve %s (%s), shared with other fans, evaluated to %d after it had evaluated to %d, although no temperature fell in between", rec.Task, rec.Root, kind, rec.Value, rec.Prev)
+	}
+}
+
+func (o *c07ConcOracle) Finish(st *stage.Stage, res *check.Result) {
+	res.Nontrivial = res.Probes["concurrent-evaluations-under-rising-temperatures"] > 5
+	if !res.Nontrivial && st.BootErr == nil {
+		res.Harness = "c07conc: no concurrent evaluation ran"
+	}
+}
+
+func runC07Conc(t *testing.T, sc *world.Scenario) *check.Result {
+	return runL1(t, sc, func(st *stage.Stage, res *check.Result) []Oracle {
+		o := &c07ConcOracle{res: res, spec: map[string]*world.CurveSpec{}, seen: map[string]bool{}}
+		for i := range sc.Curves {
+			o.spec[sc.Curves[i].ID] = &sc.Curves[i]
+		}
+		st.HarnessDriven = true
+		st.ValidateFirst = true
+		st.W.MemberYields = true
+		st.OnBooted = func(st *stage.Stage) {
+			r := kernel.NewRand(sc.Seed, "c07conc.task")
+			temp := map[string]float64{}
+			for _, s := range sc.Sensors {
+				temp[s.ID] = float64(r.Range(-10000, 60000))
+				st.Sensors[s.ID].SetMovingAvg(temp[s.ID])
+			}
+			var roots []string
+			for _, c := range sc.Curves {
+				if c.Kind == "function" {
+					roots = append(roots, c.ID)
+				}
+			}
+			nTasks, nEvals := int(sc.Params["tasks"]), int(sc.Params["evals"])
+			var left atomic.Int32
+			left.Store(int32(nTasks))
+			var done atomic.Bool
+			st.K.Go("heater", func() {
+				hr := kernel.NewRand(sc.Seed, "c07conc.heater")
+				for !done.Load() {
+					time.Sleep(time.Duration(hr.Range(1, 40)) * time.Millisecond)
+					st.K.Step("heater")
+					for _, s := range sc.Sensors {
+						if hr.Bool(0.6) {
+							temp[s.ID] += float64(kernel.Pick(hr, 1, 50, 500, 3000, 9000))
+							st.Sensors[s.ID].SetMovingAvg(temp[s.ID])
+						}
+					}
+				}
+			})
+			for k := 0; k < nTasks; k++ {
+				k := k
+				st.K.Go(fmt.Sprintf("fan%d", k), func() {
+					tr := kernel.NewRand(sc.Seed, fmt.Sprintf("c07conc.fan%d", k))
+					last := map[string]int{}
+					for i := 0; i < 2*nEvals; i++ {
+						if tr.Bool(0.3) {
+							time.Sleep(time.Duration(tr.Range(1, 50)) * time.Millisecond)
+						}
+						root := roots[tr.Intn(len(roots))]
+						v, err := st.Curves[root].Evaluate()
+						rec := &riseRecord{Task: k, Root: root, Value: v, Prev: -1}
+						if p, ok := last[root]; ok {
+							rec.Prev = p
+						}
+						if err != nil {
+							rec.Err = err.Error()
+						} else {
+							last[root] = v
+						}
+						st.K.StepWith(fmt.Sprintf("fan%d.evaluated", k), rec)
+					}
+					if left.Add(-1) == 0 {
+						done.Store(true)
 						st.K.Stop()
 					}
 				})
